@@ -134,6 +134,26 @@ def c03_categorical(obj, kind, case, cfg, rec):
 
 
 # --------------------------------------------------------------------------------------------------------- C05
+def probe_shared(obj, kind, X):
+    """frames in which feature A (which has a default group) takes a value it never saw but that is a known modality of feature B:
+    the output of B must be what it is without that value in A"""
+    quali = [f for f in obj.features if f in obj.qualitative_features and kind != 'MulticlassCarver']
+    for A in quali:
+        for B in quali:
+            if A == B: continue
+            oa, obb = obj.values_orders[A], obj.values_orders[B]
+            has_default = obj.str_default is not None and obj.str_default in oa.values()
+            cand = [v for v in obb.values() if isinstance(v, str) and v not in (obj.str_nan, obj.str_default) and not oa.contains(v) and (X[B] == v).any()]
+            if not cand or not has_default: continue
+            v = cand[0]; rows = [i for i, x in enumerate(X[B].tolist()) if x == v][:2] + [0, 1]
+            df = X.iloc[rows].copy().reset_index(drop=True); df.loc[1, A] = v
+            a = outcome(lambda: obj.transform(df)); ref = outcome(lambda: obj.transform(X.iloc[rows].reset_index(drop=True)))
+            if a[0] == 'ok' and ref[0] == 'ok':
+                yield (series_list(a[1][B]) == series_list(ref[1][B]), 'value %r (unseen for %s, known to %s): output of %s changed from %r to %r' % (v, A, B, B, series_list(ref[1][B]), series_list(a[1][B])), B)
+            elif a[0] != ref[0]:
+                yield (False, 'value %r unseen for %s (which has a default group) but known to %s: %s' % (v, A, B, a[0]), B)
+
+
 def label_set(obj, f):
     return list(obj.labels_per_values[f].values())
 
@@ -197,24 +217,9 @@ def c05(obj, kind, case, cfg, rec, rng, ref_obj=None):
             a = outcome(lambda: obj.transform(Xn))
             rec('C05:transform#raises.only_AssertionError', not a[0].startswith('error'), 'nullable Float64 quantitative columns: %s' % a[0], dict(frame='Float64'))
     # a value unseen for feature A but known to feature B, in the same frame: B's rows must be labelled as usual (row-wise purity, C05 / C07 / C10)
-    quali = [f for f in obj.features if f in obj.qualitative_features and kind != 'MulticlassCarver']
-    for A in quali:
-        for B in quali:
-            if A == B: continue
-            oa, obb = obj.values_orders[A], obj.values_orders[B]
-            has_default = obj.str_default is not None and obj.str_default in oa.values()
-            cand = [v for v in obb.values() if isinstance(v, str) and v not in (obj.str_nan, obj.str_default) and not oa.contains(v) and (X[B] == v).any()]
-            if not cand or not has_default: continue
-            v = cand[0]; rows = [i for i, x in enumerate(X[B].tolist()) if x == v][:2] + [0, 1]
-            df = X.iloc[rows].copy().reset_index(drop=True); df.loc[1, A] = v
-            a = outcome(lambda: obj.transform(df)); ref = outcome(lambda: obj.transform(X.iloc[rows].reset_index(drop=True)))
-            if a[0] == 'ok' and ref[0] == 'ok':
-                rec('C05:transform#post.unseen_value_of_one_feature_does_not_touch_other_features', series_list(a[1][B]) == series_list(ref[1][B]),
-                    'value %r (unseen for %s, known to %s): output of %s changed from %r to %r' % (v, A, B, B, series_list(ref[1][B]), series_list(a[1][B])), dict(feature=B))
-                rec('C07:transform#post.unseen_value_of_one_feature_does_not_touch_other_features', series_list(a[1][B]) == series_list(ref[1][B]),
-                    'value %r (unseen for %s, known to %s): output of %s changed from %r to %r' % (v, A, B, B, series_list(ref[1][B]), series_list(a[1][B])), dict(feature=B))
-            elif a[0] != ref[0]:
-                rec('C05:transform#post.unseen_value_of_one_feature_does_not_touch_other_features', False, 'value %r unseen for %s (which has a default group) but known to %s: %s' % (v, A, B, a[0]), dict(feature=B))
+    for okp, msg, B in probe_shared(obj, kind, X):
+        rec('C05:transform#post.unseen_value_of_one_feature_does_not_touch_other_features', okp, msg, dict(feature=B))
+        rec('C07:transform#post.unseen_value_of_one_feature_does_not_touch_other_features', okp, msg, dict(feature=B))
     # empty and single-row frames
     for name, df in (('.empty_frame', X.iloc[0:0]), ('.single_row', X.iloc[0:1])):
         try:
